@@ -1,4 +1,5 @@
 // verif-harness — drives the real memcrs crate for the correspondence checks.
+mod conn;
 mod gen;
 mod seq;
 
@@ -53,6 +54,47 @@ fn main() {
                 let body: Vec<String> = keys.iter().map(|(k, v)| format!("\"{}\": {}", k, v)).collect();
                 fs::write(p, format!("{{{}}}\n", body.join(", "))).unwrap();
             }
+        }
+        "conn-gen" => {
+            let seed: u64 = arg(&args, "--seed").unwrap_or("1").parse().unwrap();
+            let cases: usize = arg(&args, "--cases").unwrap_or("10").parse().unwrap();
+            let steps: usize = arg(&args, "--steps").unwrap_or("30").parse().unwrap();
+            let flavor = arg(&args, "--flavor").unwrap_or("mix").to_string();
+            let item_limit: u32 = arg(&args, "--item-limit").unwrap_or("1024").parse().unwrap();
+            let mem_limit: Option<u64> = arg(&args, "--mem-limit").map(|s| s.parse().unwrap());
+            let prefix = arg(&args, "--prefix").unwrap_or("c").to_string();
+            let mut trace = String::new();
+            let mut obs = String::new();
+            let mut stats: HashMap<String, u64> = HashMap::new();
+            for c in 0..cases {
+                let case_seed = seed.wrapping_mul(1_000_003).wrapping_add(c as u64);
+                let mut g = seq::Gen::new(case_seed, &flavor, item_limit, steps);
+                let cfg = seq::CaseCfg { id: format!("{}-{}-{}-{}", prefix, flavor, seed, c), item_limit, mem_limit };
+                let stuck = conn::run_case(&cfg, &mut |last, open| g.next(last, open), &mut trace, &mut obs);
+                *stats.entry("stuck".to_string()).or_insert(0) += stuck;
+                for (k, v) in g.stats.iter() {
+                    *stats.entry(k.clone()).or_insert(0) += v;
+                }
+            }
+            fs::write(arg(&args, "--trace").expect("--trace"), trace).unwrap();
+            fs::write(arg(&args, "--obs").expect("--obs"), obs).unwrap();
+            if let Some(p) = arg(&args, "--stats") {
+                let mut keys: Vec<_> = stats.iter().collect();
+                keys.sort();
+                let body: Vec<String> = keys.iter().map(|(k, v)| format!("\"{}\": {}", k, v)).collect();
+                fs::write(p, format!("{{{}}}\n", body.join(", "))).unwrap();
+            }
+        }
+        "conn-replay" => {
+            let text = fs::read_to_string(arg(&args, "--in").expect("--in")).unwrap();
+            let mut trace = String::new();
+            let mut obs = String::new();
+            for (cfg, evs) in seq::parse_trace(&text) {
+                let mut it = evs.into_iter();
+                conn::run_case(&cfg, &mut |_, _| it.next(), &mut trace, &mut obs);
+            }
+            fs::write(arg(&args, "--trace").expect("--trace"), trace).unwrap();
+            fs::write(arg(&args, "--obs").expect("--obs"), obs).unwrap();
         }
         "seq-replay" => {
             let text = fs::read_to_string(arg(&args, "--in").expect("--in")).unwrap();
